@@ -134,3 +134,21 @@ func InnerRingCandidateRemove(key)
   ensures [C17] W(key) ==> !store.has("candidates" ++ key)
   ensures [C17] forall k Bytes {store.opt(k)} :: k != "ballots" && k != "candidates" ++ key ==> store.opt(k) == old(store).opt(k)
 @*/
+
+/*@
+module upgrade
+props C16
+use common core
+use common vote
+dialect neovm
+
+// C16: an upgrade runs only from a supported older version: oldest supported <= deployed version < new version.
+pure lastarg(d Any) Int = asint(aslist(d)[len(aslist(d)) - 1])
+
+func _deploy(data, isUpdate)
+  ensures [C16] isUpdate ==> PrevVersion <= lastarg(data) && lastarg(data) < Version
+  loop 0
+    invariant true
+  loop 1
+    invariant true
+@*/
